@@ -82,7 +82,7 @@ class Lab:
         stubs.set_term(size=(1, 1) if o["fail"] == "validation" else (8, 6))
         R.sleep = lambda _s: None
         op = o["op"]
-        animated = op not in ("render", "str", "draw_still")
+        animated = op not in ("render", "str", "draw_still") or o["fail"] == "badargs"
         p = self.cls(2 if animated or op == "draw_still" else 1)
         if o["fail"] in ("exc", "stop", "kbrender"):
             p.fail_at = o["k"] or 1
@@ -96,9 +96,23 @@ class Lab:
             out.interrupt_at = 1
         old_stdout = sys.stdout
         sys.stdout = out
+        bad = None
+        if o["fail"] == "badargs":
+            from term_image.renderable import RenderArgs
+
+            bad = RenderArgs(iterkit.classes()["Other"])
         try:
             try:
-                if op == "render":
+                if bad is not None:
+                    if op == "render":
+                        p.render(bad)
+                    elif op == "draw_still":
+                        p.draw(bad, animate=False, padding=ExactPadding())
+                    elif op == "draw_anim":
+                        p.draw(bad, loops=1, padding=ExactPadding())
+                    else:
+                        RenderIterator(p, bad)
+                elif op == "render":
                     p.render()
                 elif op == "str":
                     str(p)
@@ -165,6 +179,8 @@ def expected_outcome(o):
         return "ok"
     if f == "finfail":
         return "FinalizerError"
+    if f == "badargs":
+        return "IncompatibleRenderArgsError"
     if f == "kbrender":
         # Ctrl-C while a frame is being rendered: swallowed by animations, propagated otherwise
         return "ok" if o["op"] == "draw_anim" else "KeyboardInterrupt"
